@@ -317,6 +317,21 @@ func (tr *TemplateRecord) unmarshalOpts(r *reader.Reader) error {
 	return nil
 }
 
+// minRecordLen returns the length of a data record the template describes
+func (tr TemplateRecord) minRecordLen() int {
+	n := 0
+	for _, f := range tr.ScopeFieldSpecifiers {
+		n += int(f.Length)
+	}
+	for _, f := range tr.FieldSpecifiers {
+		n += int(f.Length)
+	}
+	if n < 1 {
+		n = 1
+	}
+	return n
+}
+
 func (d *Decoder) decodeData(tr TemplateRecord) ([]DecodedField, error) {
 	var (
 		fields []DecodedField
@@ -444,8 +459,14 @@ func (d *Decoder) decodeSet(mem MemCache, msg *Message) error {
 		}
 	}
 
-	// the next set should be greater than 4 bytes otherwise that's padding
-	for err == nil && (int(setHeader.Length)-(d.reader.ReadCount()-startCount) > 4) && d.reader.Len() > 4 {
+	// what is left of a flowset is padding once it is shorter than the shortest record
+	// the flowset can hold: the template's record length for a data flowset,
+	// more than a template record header otherwise
+	minLen := 5
+	if setHeader.FlowSetID > 255 && err == nil {
+		minLen = tr.minRecordLen()
+	}
+	for err == nil && (int(setHeader.Length)-(d.reader.ReadCount()-startCount) >= minLen) && d.reader.Len() >= minLen {
 		if setId := setHeader.FlowSetID; setId == 0 || setId == 1 {
 			// Template record or template option record
 			tr := TemplateRecord{}
